@@ -1,7 +1,7 @@
 """C02 Map lanes: every subscriber's replica converges to the lane's map."""
 from mirlib import AnchorMissing, describe_call, describe_operand, describe_place, describe_rvalue, dom_guards, guards, decision_paths, _suffix_match
 from rules import uplinks
-from rules.common import guards_with_sources, success_edge, aggregates, callers_by_name, crate_aggregates, owner_def, where
+from rules.common import answers_only_with, guards_with_sources, success_edge, aggregates, callers_by_name, crate_aggregates, owner_def, where
 
 META = {
     "explanation": (
@@ -231,8 +231,9 @@ def run(ctx):
     with ctx.rule("C02.R5", "T8+T7", "ReconKey: eq -> compare_recon_values, hash -> recon_hash, content validated UTF-8", floor=4) as r:
         RK = "backpressure::key::ReconKey"
         eq = ctx.saw(rt.fn(name="eq", self_adt=RK))
-        r.check(any(c.is_fn("compare_recon_values") or c.name == "compare_recon_values" for c in eq.calls) and not eq.meta.get("derived"), "ReconKey/eq=>compare_recon_values", where(eq), "PartialEq::eq delegates to swimos_recon::compare_recon_values",
-                "ReconKey equality no longer uses the Recon comparator: keys differing only in formatting are separate keys")
+        aok, awhy = answers_only_with(eq, "compare_recon_values")
+        r.check(aok and not eq.meta.get("derived"), "ReconKey/eq=>compare_recon_values", where(eq), "PartialEq::eq is swimos_recon::compare_recon_values of the two texts, on every path",
+                "ReconKey equality is not (only) the Recon comparator (%s): keys that differ only in spelling (16 / 0x10, 1e3 / 1E3) are separate keys for the backpressure queue although they hash alike and denote one map key" % awhy)
         hs = ctx.saw(rt.fn(name="hash", self_adt=RK))
         r.check(any(c.name == "recon_hash" for c in hs.calls), "ReconKey/hash=>recon_hash", where(hs), "Hash::hash delegates to swimos_recon::recon_hash", "ReconKey hash no longer uses recon_hash: equal keys can hash differently")
         imp_eq = rt.implements(RK, "core::cmp::PartialEq")
